@@ -153,6 +153,16 @@ func (f *Frame) exec(in ssa.Instruction) {
 			res = append(res, f.val(r))
 		}
 		f.rets = append(f.rets, retPoint{reach: f.curReach, results: res, state: f.cur.clone(), block: x.Block()})
+		// a return from inside a loop body: the loop's body_returns clauses
+		for _, li := range f.loopsLeftFromBody(x.Block()) {
+			if li.spec == nil || len(li.spec.BodyRet) == 0 || li.headState == nil {
+				continue
+			}
+			for i, br := range li.spec.BodyRet {
+				t := f.bodyRetExpr(li, br, x.Block(), res)
+				li.addPending(fmt.Sprintf("loop%d/%s", li.n, clauseName(br, "returns", i)), "body-returns", Imp(f.curReach, t), br.Text)
+			}
+		}
 	case *ssa.Panic:
 		if f.vc.safe {
 			f.oblige("safety", f.nameCount("panic"), "false", "explicit panic reachable", x.Pos())
